@@ -640,6 +640,13 @@ static void v_supervise(void (*worker)(void), double hang_s, const char *scratch
 			memcpy(VS->res, b.p, b.len + 1);
 			VS->res_len = b.len;
 			VS->done = 1;
+#ifdef VERIF_COV
+			{
+				extern void __gcov_dump(void);
+
+				__gcov_dump(); /* coverage build (bin/covrun): the counters live in this process */
+			}
+#endif
 			_exit(0);
 		}
 		long long last = -1;
